@@ -1,5 +1,6 @@
 import ColaVerif.DriverLib
 import ColaVerif.Model.KernelOp
+import ColaVerif.Model.MatmatDtype
 
 /-!
 Line-protocol driver of the operator-tree family (C01, C02, C03, C05, C20): one JSON case per
@@ -15,12 +16,17 @@ def headerDt (A : Op GRat) : String :=
   header A ++ s!",\"dtypeSpec\":\"{A.dtypeSpec.toString}\""
 
 /-- code-model and specification dtype of the array a product with an operand of dtype `xdt`
-returns; without an operand (`to_dense`, indexing) the operator's own dtype -/
-def resDt (A : Op GRat) (j : Json) : E String := do
+returns; without an operand (`to_dense`, indexing) the operator's own dtype.  The code-model value
+is the RECURSIVE dtype model of Model/MatmatDtype.lean (`Op.mmDt` for `A @ X`, `Op.rmmDt` for
+`X @ A`: what each class's `_matmat` / `_rmatmat` does with dtypes); `resdtPromote` is the round-2
+value `promote_types(A.dtype, X.dtype)` (`Op.mmDtype`), equal to it on every `wf` tree
+(`C01_result_dtype_promote`). -/
+def resDt (A : Op GRat) (call : String) (j : Json) : E String := do
   match (j.getObjVal? "xdt").toOption with
   | some x => do
       let xdt ← jDt x
-      pure s!",\"resdt\":\"{(A.mmDtype xdt).toString}\",\"resdtSpec\":\"{(A.mmDtypeSpec xdt).toString}\""
+      let code := if call == "rmatmat" then A.rmmDt xdt else A.mmDt xdt
+      pure s!",\"resdt\":\"{code.toString}\",\"resdtPromote\":\"{(A.mmDtype xdt).toString}\",\"resdtSpec\":\"{(A.mmDtypeSpec xdt).toString}\""
   | none => pure s!",\"resdt\":\"{A.dtype.toString}\",\"resdtSpec\":\"{A.dtypeSpec.toString}\""
 
 /-- `expr` cases (C03): code model `Ex.eval`, specification `Ex.meaning` for shape and entries,
@@ -37,7 +43,8 @@ def handleExprDt (j : Json) : E String := do
         ++ ",\"value\":" ++ showMat r c (forceV r c m).f ++ "}"
     | none => "{\"kind\":\"none\"}"
   let cl := showStrs (e.clauses (fun z => ⟨z.re, 0⟩))
-  pure ("{\"id\":" ++ id.compress ++ ",\"wf\":true,\"clauses\":" ++ cl ++ ",\"code\":" ++ code ++ ",\"spec\":" ++ spec ++ "}")
+  let rcl := showStrs (e.rootClauses (fun z => ⟨z.re, 0⟩))
+  pure ("{\"id\":" ++ id.compress ++ ",\"wf\":true,\"clauses\":" ++ cl ++ ",\"rootClauses\":" ++ rcl ++ ",\"code\":" ++ code ++ ",\"spec\":" ++ spec ++ "}")
 
 def handle (j : Json) : E String := do
   let id := (j.getObjVal? "id").toOption.getD .null
@@ -65,7 +72,7 @@ def handle (j : Json) : E String := do
       | none => "null"
     return "{\"id\":" ++ id.compress ++ ",\"res\":" ++ r ++ "}"
   let A ← jOp ((j.getObjVal? "op").toOption.getD .null)
-  let pre := s!"\"id\":{id.compress},{headerDt A}{← resDt A j}"
+  let pre := s!"\"id\":{id.compress},{headerDt A}{← resDt A call j}"
   match call with
   | "matmat" => do
       let xm ← jMat ((j.getObjVal? "x").toOption.getD .null)
@@ -104,7 +111,8 @@ def handle (j : Json) : E String := do
         | .op B => "{\"kind\":\"op\",\"rows\":" ++ toString B.rows ++ ",\"cols\":" ++ toString B.cols ++ ",\"value\":" ++ showMat B.rows B.cols B.den.f ++ "}"
         | r => showRes r
       let bound := maxAbsMat A.rows A.cols A.absOp.td.f
-      pure ("{" ++ pre ++ s!",\"code\":{showRes code},\"spec\":{specS},\"absbound\":{bound}" ++ "}")
+      -- `den`: the represented matrix, so that the harness can attribute a code/spec difference entry by entry
+      pure ("{" ++ pre ++ s!",\"code\":{showRes code},\"spec\":{specS},\"den\":{showMat A.rows A.cols A.den.f},\"absbound\":{bound}" ++ "}")
   | c => throw s!"unknown call {c}"
 
 def main : IO Unit := driverMain handle
